@@ -46,8 +46,9 @@ var propTable = map[string]propInfo{
 		Explanation: commonMethod + "raft-level half: every message that promises something about durable state (MsgAppResp, MsgVoteResp, MsgPreVoteResp, including the " +
 			"leader's self-acknowledgement) is routed to msgsAfterAppend and never to msgs (raft.send#routing-*, and #one-deferred-reply / #self-ack-deferred / " +
 			"#vote-replies-deferred on the handlers, appendEntry, becomeLeader and Step); a stale-term MsgStorageAppendResp does not stabilise entries " +
-			"(Step#stale-term-ignored); stableTo drops exactly the acknowledged prefix and only on an (index, term) match. RawNode's Ready/Advance ordering is not under " +
-			"contract yet: the property's crash-recovery half is not decided here.",
+			"(Step#stale-term-ignored); stableTo drops exactly the acknowledged prefix and only on an (index, term) match. At the API layer RawNode.readyWithoutAccept hands out the whole not-in-progress unstable " +
+			"tail, the hard state exactly when it differs from the last one handed out, MustSync per its definition, and (sync mode) the immediate messages first; HasReady is true " +
+			"whenever the hard state changed. acceptReady/Advance (when the deferred messages are released) are not under contract yet: the crash-recovery half is not decided here.",
 	},
 	"C06": {
 		Level: "proof",
@@ -63,7 +64,8 @@ var propTable = map[string]propInfo{
 		Explanation: commonMethod + "Two-state invariant hs_monotone (Term never decreases; within a term Vote changes only from None; committed never decreases) is a " +
 			"postcondition of every function from raft.Step and tickElection down that can write the hard state (become*, reset, campaign, hup, the handlers, restore, " +
 			"commitTo, maybeCommit, appliedTo, the three step functions); Step adds the exact term rule (#term-rule), #prevote-changes-nothing and #stale-term-ignored. " +
-			"Not under contract (assumed): appliedSnap, switchToConfig, tickHeartbeat, RawNode's HardState emission.",
+			"RawNode.readyWithoutAccept emits the hard state exactly when it differs from the previous one and " +
+			"HasReady reports every such change. Not under contract (assumed): appliedSnap, switchToConfig, tickHeartbeat, acceptReady's update of prevHardSt.",
 	},
 	"C08": {
 		Level: "proof",
@@ -82,8 +84,9 @@ var propTable = map[string]propInfo{
 		Level: "other",
 		Explanation: commonMethod + "Node-local half: a leader accepts a conf-change entry only if no possibly-unapplied one is pending (pendingConfIndex <= applied) unless " +
 			"validation is disabled, otherwise replaces it by an empty entry, and records exactly the index the accepted entry will get (stepLeader#conf-gate, #conf-index, " +
-			"loop invariant #pending-conf); becomeLeader sets pendingConfIndex to its last index; hup refuses to campaign while a committed conf change is unapplied. " +
-			"hasUnappliedConfChanges, the confchange package and switchToConfig are assumed contracts; that all nodes derive the same configurations is not decided here.",
+			"loop invariant #pending-conf); becomeLeader sets pendingConfIndex to its last index; hup refuses to campaign while a committed conf change is unapplied " +
+			"(hasUnappliedConfChanges is proved to scan exactly (applied, committed], through raftLog.scan and its callback). " +
+			"The confchange package and switchToConfig are assumed contracts; that all nodes derive the same configurations is not decided here.",
 	},
 	"C11": {
 		Level: "other",
@@ -105,7 +108,7 @@ var propTable = map[string]propInfo{
 		Explanation: commonMethod + "For every function under contract, each Panicf/panic site, nil dereference, index/slice bound and division is an obligation discharged " +
 			"under the function's stated usage preconditions (labelled [C14]: E-msg-wf message well-formedness, E-ready-contract, E-app-conf, A-arith); callers discharge " +
 			"callee preconditions. What is proved is: no assertion fires in these functions when the listed preconditions hold; that contract-respecting usage implies " +
-			"the preconditions at the API boundary (RawNode) is not decided (RawNode is not under contract yet). Found and fixed F-1 (MemoryStorage.Term).",
+			"the preconditions at the API boundary (RawNode) is not decided (only RawNode's read side is under contract). Found and fixed F-1 (MemoryStorage.Term).",
 	},
 	"C16": {
 		Level: "proof",
